@@ -187,13 +187,21 @@ class Continuous(AgentSchedulingComponent):
 
         slots = list()
 
+        # each slot consumes `lfs_per_slot` and `mem_per_slot` on this node:
+        # never find more slots than the node's free lfs and mem can serve
+        max_slots = n_slots
+        if lfs_per_slot:
+            max_slots = min(max_slots, int(node['lfs'] // lfs_per_slot))
+        if mem_per_slot:
+            max_slots = min(max_slots, int(node['mem'] // mem_per_slot))
+
         # find at most `n_slots`
         loop_core_idx = 0
         loop_gpu_idx  = 0
-        while len(slots) < n_slots:
+        node_idx  = node['index']
+        node_name = node['name']
 
-            node_idx  = node['index']
-            node_name = node['name']
+        while len(slots) < max_slots:
 
             self._log.debug_9('find resources on %s:%d', node_name, node_idx)
             self._log.debug_9('node: %s', pprint.pformat(node))
